@@ -79,6 +79,18 @@ PROPS = {
             "C10_compile_wellformed_partial_strong": [],
             "C10_A23_legacy_window_refuted": [],
             "C10_A24_repaired": [],
+            "C10_compile_wellformed": [],
+            "C10_compile_wellformed_head": [],
+            "C10_compile_trace_complete": [],
+            "C10_from_u32_injective": [],
+            "C10_few_globals": [],
+            "C10_compile_wellformed_example": [],
+            "C10_compile_wellformed_module": [],
+            "C10_module_in_range_program": [],
+            "C10_name_collision_observation": [],
+            "C10_add_local_slot": [],
+            "C10_resolve_var_in_scope": [],
+            "C10_close_upvalue_slot": [],
         },
         n_quick=320, n_thorough=4000,
         gates=["obs.ok", "obs.err.ETooManyUpvalues", "obs.err.EInvalidJump", "obs.err.EDuplicateName", "obs.err.EEmptyVariable",
@@ -106,6 +118,16 @@ PROPS = {
             "programs with more than 16 distinct globals are generated unless VERIF_C10_MANY_GLOBALS=0 (before the fix of "
             "HandleTable::entry, A-5, the 17th global made compile hang; a hang is observed through the harness watchdog, exit code 42)",
             "bytecode shorter than 2^31 bytes, fewer than 2^32 cards per function",
+            "C10_compile_wellformed (every program the compiler MODEL returns satisfies wellformed_gen false = wellformed at "
+            "HEAD) is proved for all modules under executable side conditions that are hypotheses of the theorem: "
+            "program_in_range (literals fit i64 / 64 bits), program_utf8 (string literals, native function names and "
+            "ReadVar / SetVar names are valid UTF-8), bytecode < 2^31 bytes, data section < 2^32 bytes; no hypothesis on "
+            "hash collisions (Handle::from_u32 is proved injective below 2^32 - 1, the number of globals is bounded by the "
+            "code size, collisions of Handle::from_str on variable NAMES do not affect the tables' validity)",
+            "not proved, not part of wellformed (the bytecode does not declare the number of locals of a function): every "
+            "emitted local index is below the number of locals of its function at that point, every RegisterUpvalue pair names an "
+            "existing local / upvalue of the enclosing function; proved only for the operations that produce the indices "
+            "(C10_add_local_slot, C10_resolve_var_in_scope, C10_close_upvalue_slot), not threaded through process_card",
         ],
     ),
     "C01": dict(
@@ -711,7 +733,7 @@ PROPS = {
         prop_file="Properties/C05.v",
         check_module="C05Check",
         theorems={t: [] for t in ["C05_ledger_invariant", "C05_oom_only_when_full", "C05_bounded_live_never_oom",
-                                  "C05_refused_not_charged", "C05_clear_is_fresh", "C05_gc_complete"]},
+                                  "C05_refused_not_charged", "C05_clear_is_fresh", "C05_gc_complete", "C05_oom_only_when_reachable_full", "C05_reachable_fits_never_oom", "C05_live_bytes_counts"]},
         n_quick=60, n_thorough=600,
         gates=["trace.alloc_refused", "trace.run_ended_OutOfMemory", "trace.collected>2",
                "trace.collection_released_something", "gc_case.mid_run", "prog=string_churn", "prog=closures"],
@@ -805,6 +827,8 @@ PROPS = {
             "C03_timeout_reported_run": [],
             "C03_budget_bound_legacy_refuted": [],
             "C03_dispatch_fuel_irrelevant": [],
+            "C03_budget_monotone_reentry": [],
+            "C03_sufficient_budgets_agree_reentry": [],
         },
         n_quick=200, n_thorough=2000,
         gates=["feature.reentry", "feature.stdlib", "feature.while", "feature.call", "outcome.ETimeout",
@@ -817,7 +841,8 @@ PROPS = {
              "without Timeout, by bisection); observed: outcome, globals, host log, stack shape and Vm::remaining_iters "
              "after the run; code 1: the model's remaining budget must equal the implementation's (dispatched = N - "
              "remaining compared exactly); code 2 (oracle on the observations alone): remaining <= N, Timeout -> "
-             "remaining = 0, Ok -> remaining >= 1, and all runs of a program that end with remaining >= 1 agree on "
+             "remaining = 0, Ok -> remaining >= 1, no run ends in a Rust panic (errors are values; e.g. an overflow of the "
+             "budget counter in a debug build), and all runs of a program that end with remaining >= 1 agree on "
              "outcome, trace, globals, log, stack shape and number of dispatched instructions; non-trivial = at least one run completes or more than 3 runs; distinct = distinct case term",
         trusted_base=COMMON_TB + [
             "modelled, not verified: vm.rs (_run, run, run_function), vm/instr_execution.rs, stdlib.rs natives, "
@@ -827,8 +852,10 @@ PROPS = {
         ],
         assumptions=[
             "budget_monotone / sufficient_budgets_agree / timeout_reported_run are proved for runs without re-entry "
-            "(run_flat); with re-entry a native may swallow a nested Timeout (try1), so equality of outcomes for all "
-            "sufficient budgets needs the extra hypothesis that no Timeout was raised at any level - not proved",
+            "(run_flat) under the hypothesis 'the outcome is not Timeout'; with re-entry a native may swallow a nested "
+            "Timeout (try1), so the hypothesis of budget_monotone_reentry / sufficient_budgets_agree_reentry (proved "
+            "for `run` with every native of the menu at any nesting depth) is 'the run ends with remaining >= 1', "
+            "which is what the code-2 oracle uses too; timeout_reported_run with re-entry is not proved",
             "natives are the fixed menu of Vm.v plus the stdlib natives; an arbitrary host function is outside the theorem",
         ],
     ),
@@ -841,11 +868,39 @@ PROPS = {
             "C17_run_leaves_no_frames": [],
             "C17_next_run_can_start": [],
             "C17_deterministic": [],
+            "C17_stack_ops_agree": [],
+            "C17_step_after_clear": [],
+            "C17_run_after_clear": [],
+            "C17_sim_readable": [],
         },
-        n_quick=60, n_thorough=600,
+        n_quick=90, n_thorough=900,
         gates=["step.clear", "step.no_clear", "history.300_steps", "outcome.ETimeout", "outcome.EStackoverflow",
-               "outcome.ECallStackOverflow", "outcome.ETaskFailure", "outcome.Ok", "prog.random"],
-        rule="histories of 4-27 (one in ten: 300) steps on ONE Vm over 1-4 compiled programs (corpus and random "
+               "outcome.ECallStackOverflow", "outcome.ETaskFailure", "outcome.Ok", "prog.random",
+               # histories under a small memory limit: an OutOfMemory step at every kind of allocation site,
+               # a clear after an OutOfMemory, the other error kinds in between, sweeps
+               "history.limited_memory", "oom.string_header", "oom.string_chars", "oom.table_header",
+               "oom.table_storage_initial", "oom.table_storage_growth", "oom.closure", "oom.upvalue",
+               "oom.function_object", "oom.native_function_object", "oom.owned_value_string",
+               "oom.owned_value_table", "mem.clear_after_OutOfMemory", "mem.step.sweep", "mem.step.insert_value",
+               "mem.outcome.ETimeout", "mem.outcome.EStackoverflow", "mem.outcome.ETaskFailure", "mem.outcome.Ok"],
+        rule="every third case is a history under a SMALL MEMORY LIMIT (HistMem): one Vm with "
+             "runtime_data.set_memory_limit(L), L from 300 bytes to 64 KiB taken from a plan (every allocation "
+             "template is first run on new Vms under a ladder of limits with the allocation events recorded, which "
+             "gives for every kind of allocation site - string header, string characters, table header, initial "
+             "table storage, table storage growth, closure, upvalue, function object, native function object - the "
+             "limits at which a run is refused exactly there; history k aims at site k mod 9), 5-18 steps over the "
+             "targeted template, other templates, error-path corpus programs (Timeout, stack overflow, call stack "
+             "overflow, native error, conversion error) and random modules; a step is a run (budget as below, clear "
+             "before it with probability 1/2), a host insertion Vm::insert_value(OwnedValue string / table), or a "
+             "sweep (clear, then bisection for the longest string that init_string accepts, clear after every "
+             "probe); every history ends with clear + sweep. The model Vm.v has no allocator and no collector, so "
+             "for these cases the model comparison (code 1) is SKIPPED; only oracles that are independent of the "
+             "model apply (code 2): a step that starts with clear (or is the first) equals the same step on a new Vm "
+             "with the same limit (outcome, trace, globals, host log, heights, objects, remaining budget; for an "
+             "insertion Ok/OutOfMemory, allocated bytes, live objects); right after every clear (allocated, next_gc, "
+             "limit, heights, objects, globals) equal those of a new Vm with that limit; the longest string that "
+             "fits after the history equals the longest that fits into a new Vm. The other cases (Hist) are "
+             "histories of 4-27 (one in ten: 300) steps on ONE Vm over 1-4 compiled programs (corpus and random "
              "modules): each step = (program, budget in {1..60, 1..400, 20000}, clear before the run with "
              "probability 1/2, run); the host log is emptied before every step; every step is also run on a NEW Vm. "
              "Code 1: the model (state threaded through the history, Vm.clear_state) predicts outcome, trace, "
@@ -859,11 +914,15 @@ PROPS = {
             "subject of C05 (Alloc.v), not of this model",
         ],
         assumptions=[
-            "PARTIAL: `run P (clear s) = run P fresh` for all histories is checked by the oracle on generated "
-            "histories, not proved: the model lacks the lemma that no instruction reads a stack slot at or above the "
-            "high-water mark of the current run",
-            "runs ending in OutOfMemory are not in the stream: the model has no allocator and the harness gives the "
-            "VM a 1 GiB limit so that no collection runs",
+            "`run P (clear s) = run P fresh` is proved for the model (C17_run_after_clear: same outcome, final states "
+            "equal in everything readable, i.e. up to dead stack slots above the high-water mark of the run) for all "
+            "programs, budgets and natives of the menu; the allocator and the collector are not part of that model: "
+            "the accounted memory after clear is claimed by the counter / sweep oracles and by C05's allocator model",
+            "histories under a small memory limit (runs ending in OutOfMemory, collections) are judged by the "
+            "fresh-Vm oracle and the allocator-counter oracle only: the model has no allocator, code 1 is skipped "
+            "for them; in the modelled histories the harness gives the VM a 1 GiB limit so that no collection runs",
+            "host insertions use OwnedValue strings and tables with integer keys and real values only (a nested "
+            "OwnedValue is not rooted by insert_value while the next one is allocated: outside this property)",
             "determinism of the implementation across processes (std::HashMap iteration order in the compiler) is "
             "not probed by this stream",
         ],
@@ -877,6 +936,12 @@ PROPS = {
             "C18_native_error_wrapped": [],
             "C18_fail0_is_task_failure": [],
             "C18_native_unknown": [],
+            "C18_native_args_str1": [],
+            "C18_native_args_nil1": [],
+            "C18_native_args_mix3": [],
+            "C18_native_args_t4": [],
+            "C18_conversion_error_t4": [],
+            "C18_reentry_balanced_partial": [],
         },
         n_quick=200, n_thorough=2000,
         gates=["feature.native", "feature.native_arity4", "feature.native_value_call", "feature.reentry",
@@ -889,16 +954,32 @@ PROPS = {
              "closures / callbacks, with arguments of every value kind; every native records the converted arguments "
              "it received in the host log (log1 and rb1 also the stack heights). Code 1: model vs implementation on "
              "outcome (TaskFailure name, number of the parameter whose conversion failed), globals, host log, stack "
-             "shape, remaining budget. Code 2: rb1 entries (heights after a successful run_function equal the heights "
-             "before; call depth also after a failed one), reserved names rejected. Non-trivial / distinct as for VM",
+             "shape, remaining budget. Code 2 (independent of Vm.v): ARGUMENT CONVERSION - the harness registers every "
+             "menu native behind a plain wrapper that records the k topmost stack values (the values the script "
+             "supplied, parameter 1 deepest) before the typed wrapper of traits.rs converts them, and how the call "
+             "ended; every native body records the parameters it received (host-log entries starting with TDeep, "
+             "removed before the model comparison). C18Check.conv_spec : param_type -> value -> converted value / "
+             "failure is written from the documented conversions of value.rs (i64: integer, real truncated with "
+             "saturation and NaN -> 0, nil -> 0, object -> its length; f64 likewise; bool = as_bool; &str only from "
+             "strings; &CaoLangTable only from tables; Value = anything; Nilable<T> = None exactly for nil, otherwise "
+             "T's conversion). For every recorded invocation: either every conv_spec succeeds and the body received "
+             "exactly [conv_spec T_i v_i] in declaration order, or the call ended with InvalidArgument 'Failed to "
+             "convert function input #n' with n the first parameter in conversion order (last to first) whose "
+             "conv_spec fails, and the body did not run. Also code 2: rb1 entries (heights after a successful "
+             "run_function equal the heights before; call depth also after a failed one), reserved names rejected, no "
+             "run ends in a Rust panic. Non-trivial / distinct as for VM",
         trusted_base=COMMON_TB + [
             "modelled, not verified: traits.rs (VmFunction impls), vm/instr_execution.rs (call_native), vm.rs "
             "(run_function), value.rs (TryFrom conversions), the natives registered by harness/src/vmrun.rs",
         ],
         assumptions=[
-            "PARTIAL: theorems cover the arity-2 wrapper with i64 conversions, the &str conversion failure and error "
-            "wrapping for every menu native; arities 1/3/4, the other conversions and reentry_balanced are claimed by "
-            "the correspondence run only",
+            "PARTIAL: theorems cover one wrapper of every arity 1-4 (str1, nil1 = Nilable<i64>, sub2, mix3, t4) with the "
+            "i64 / f64 / bool / &str / Value / Nilable conversions, conversion failures (str1, t4: last parameter "
+            "first) and error wrapping for every menu native; the remaining natives of the menu are claimed by the "
+            "correspondence run and the conv_spec oracle only",
+            "reentry_balanced is proved from the point where the callee reaches its Return with the caller's stack "
+            "part and frames intact (C18_reentry_balanced_partial); that compiled callee bodies keep them intact "
+            "(frame discipline) is claimed by the rb1 oracle only",
             "host functions are the fixed menu; `register_native_function` itself is not modelled (the reserved-name "
             "rule is checked on the implementation directly)",
         ],
@@ -928,7 +1009,8 @@ PROPS = {
              "recursion, dynamic calls, closures, natives incl. re-entry through run_function) is run on the real VM "
              "with budgets {generous, need-1, need, need+1, random, 1, sometimes 0} (need = least budget without "
              "Timeout, found by bisection) on fresh VMs, or repeatedly on one VM; outcome variant with payload fields "
-             "and error trace, every global by name as a canonical tree, and the host log are compared with Vm.v; "
+             "and error trace, every global by name as a canonical tree, and the host log are compared with Vm.v; a Rust "
+             "panic of the implementation during a run is code 2 whatever the model predicts; "
              "non-trivial = at least one run completes or more than 3 runs; distinct = distinct case term",
         trusted_base=COMMON_TB + [
             "modelled, not verified: vm.rs, vm/instr_execution.rs, vm/runtime.rs (no GC: the harness gives the VM a "
